@@ -88,7 +88,8 @@ func (h *Heap[T]) GetValues() []T {
 	h.mu.RLock()
 	defer h.mu.RUnlock()
 
-	return h.data
+	// A copy: the caller reads the result without holding the heap's lock.
+	return append([]T(nil), h.data...)
 }
 
 // Push inserts new elements at the end of the heap and calls the heapify algorithm to reorder
